@@ -273,6 +273,19 @@ func gen(tier string) []proto.Item {
 			items = append(items, proto.Item{Scn: s, Class: v + "/base-" + b.name + "/all-default"})
 		}
 	}
+	// UDP: a router rejects a probe with a destination-unreachable of its own (host, administratively prohibited, port)
+	for _, v := range proto.Variants {
+		if k := proto.Info(v).Kind; k != "udp4" && k != "udp6" {
+			continue
+		}
+		for _, form := range []string{"duHost", "duAdmin", "duPort"} {
+			for _, t := range []int{1, 2} {
+				s := base(v, rng{1, 4}, 3)
+				s.Hops = map[int]proto.HopSpec{t: {Form: form}}
+				items = append(items, proto.Item{Scn: s, Class: fmt.Sprintf("%s/r1-4/%s/router/others-delivered", v, form)})
+			}
+		}
+	}
 	// TCP SYN: the probe's sequence number is 2^32-1, so the destination's SYN-ACK / RST-ACK acknowledges 0: recognised
 	// like any other answer (default mode: one number for the whole run; Paris mode: every probe draws it)
 	for _, v := range []string{"syn", "synr", "synparis"} {
